@@ -39,5 +39,5 @@ def build():
       "A-TWISTED-DEFER: Deferred.callback runs the registered callbacks synchronously once, raises AlreadyCalledError when already called; callLater returns a DelayedCall that is active until it fires",
       "everything in carbon.client runs on the reactor thread (single-threaded): each method is verified from an arbitrary state; the history statement is the induction over events of the per-operation view equations (meta-step)",
       "state.events.metricGenerated (re-injection) does not enqueue into the queue being drained: the router no longer returns the removed destination (C05/C16 'only configured destinations'); DESTINATION_POOL_REPLICAS is off",
-      "connection-quality resets (USE_RATIO_RESET): the monitor's verdict is an arbitrary boolean, resetConnectionForQualityReasons and the protocol's disconnect run under contract inside sendQueued; SSL / connector set-up, CarbonClientManager and FakeClientFactory are not under contract",
+      "connection-quality resets (USE_RATIO_RESET): the monitor's verdict is an arbitrary boolean, resetConnectionForQualityReasons and the protocol's disconnect run under contract inside sendQueued; SSL / connector set-up, CarbonClientManager.startClient / stopClient and FakeClientFactory are not under a discharged contract (bounded: relay_manager_cross_check)",
     ])
